@@ -17,7 +17,7 @@ RULE = ("conv probe, no scripted backend panics: (a) command lines of length lim
         "and invalid commands around the error threshold; (f) random walks without panic letters. non-trivial = the conversation "
         "contains an invalid, over-long or binary line; distinct = distinct case line | sched probe with `latestart` (the command loop does not wait "
         "for the delivery goroutine): the peer disconnects / QUITs / RSETs right after a BDAT command, SMTP and both LMTP modes, repeated: no recovered panic may be logged")
-THEOREMS = ["C19_short_lines_ok", "C19_long_line_trips", "C19_long_line_refused", "C19_error_threshold", "C19_tripped_ends_commands", "C19_resume_short_ok", "C19_resume_counts_pending", "C19_next_chunk_payload_not_counted", "C19_unusable_bdat_line_counted_on", "C19_nothing_skipped_behind_mode_change", "C19_next_line_always_counted"]
+THEOREMS = ["C19_short_lines_ok", "C19_long_line_trips", "C19_long_line_refused", "C19_error_threshold", "C19_tripped_ends_commands", "C19_resume_short_ok", "C19_resume_counts_pending", "C19_next_chunk_payload_not_counted", "C19_unusable_bdat_line_counted_on", "C19_nothing_skipped_behind_mode_change", "C19_next_line_always_counted", "C19_lookahead_only_skips"]
 signature = cc.signature
 mutate = cc.mutate
 shrink = P.shrink_resegment
